@@ -117,3 +117,10 @@ check(
     "Selection only among registered systems and None; each SetCurrent call announces once; mapping units belong to the category's type; read-only flag not modelled.",
     "4/C17",
 )
+check(
+    "C18",
+    "runtime monitoring: reference-model monitor - real FractionValue / Fraction / FractionScalar operations executed on generated inputs and compared with exact rational arithmetic (fractions.Fraction, decimal reading of float literals) and, for FractionScalar, with the Scalar holding float(value)",
+    "Held for thousands of (number, numerator, denominator) triples of ints and short decimals (denominators 1..64 + powers of ten; thorough 1..10000): stored parts, float() within 4 ulp, order operators, format->parse exactly, copy independence; Fraction + - * / % ** neg abs inv copy and six comparisons against exact rationals (lowest terms); CreateFromFloat within 1e-11 relative on tens of thousands of <= 8-digit decimals (1e-9..1e9, every 4th from 1e-30..1e15); FractionScalar vs Scalar for every quantity type x unit pairs incl. every affine pair: conversion, database conversion of FractionValue, four order operators, validity on private categories with limits. One known finding (subnormal inputs of CreateFromFloat).",
+    "A float literal denotes the short decimal it prints as; format/parse demanded where %g prints the parts exactly; the fraction part may differ by 2e-9 relative (Fraction keeps ~9 decimals of a float numerator).",
+    "4/C18",
+)
